@@ -262,6 +262,9 @@ func (s *Sched) Go(name string, fn func()) {
 			}
 			s.Exit()
 		}()
+		// an actor's first step is a schedule point, so that the order in which actors start
+		// is the explorer's choice and never the Go runtime's
+		s.Gate(&shim.Op{Kind: shim.OpYield, Name: "start", Site: "start:" + name})
 		fn()
 	}()
 }
